@@ -321,6 +321,7 @@ def callforms():
             continue
         opt = [p for p in params if p.default is not P.empty and p.kind in (P.POSITIONAL_OR_KEYWORD, P.KEYWORD_ONLY)]
         pos_index = {p.name: i for i, p in enumerate([q for q in params if q.kind in (P.POSITIONAL_ONLY, P.POSITIONAL_OR_KEYWORD)])}
+        singles = []
         for p_ in opt:
             d = p_.default
             vals = []
@@ -336,19 +337,44 @@ def callforms():
                 vals = [True]
             elif d is None and p_.name in ("alpha", "negative_slope", "approximate", "min", "max", "a_min", "a_max", "decimals"):
                 vals = [0.25] if p_.name != "decimals" else [1]
+            elif d is None and p_.name in ("b", "weights"):
+                vals = ["ARRAY_F"]
+            elif d is None and p_.name in ("where", "mask"):
+                vals = ["ARRAY_B"]
+            if vals:
+                singles.append((p_.name, vals[0]))
             for v in vals:
                 forms = [("kw", v)]
                 if p_.kind == P.POSITIONAL_OR_KEYWORD and pos_index.get(p_.name) == len(req):
                     forms.append(("pos", v))
                 for form, val in forms:
                     out[f"CF/{mod}.{attr}/{p_.name}={val!r}/{form}"] = (mod, attr, len(req), p_.name, val, form)
+        # two cooperating non-default arguments (keyword form)
+        for i in range(len(singles)):
+            for j in range(i + 1, len(singles)):
+                (n1, v1), (n2, v2) = singles[i], singles[j]
+                out[f"CF2/{mod}.{attr}/{n1}={v1!r},{n2}={v2!r}/kw"] = (mod, attr, len(req), (n1, n2), (v1, v2), "kw2")
     _CF = out
     return out
 
 
+def _materialise(v):
+    import numpy as np
+
+    if v == "ARRAY_F":
+        return np.array([[0.5, 1.5, 2.0], [1.0, 0.25, 3.0]], dtype=np.float32)
+    if v == "ARRAY_B":
+        return np.array([[True, False, True], [True, True, False]])
+    return v
+
+
 def list_jobs(tier):
     ids = sorted(callforms())
-    return ids if tier == "thorough" else ids[:: max(1, len(ids) // 260)]
+    singles = [i for i in ids if i.startswith("CF/")]
+    pairs = [i for i in ids if i.startswith("CF2/")]
+    if tier == "thorough":
+        return ids
+    return singles[:: max(1, len(singles) // 260)] + pairs[:: max(1, len(pairs) // 200)]
 
 
 def run_job(job, tier):
@@ -364,12 +390,14 @@ def run_job(job, tier):
     def fn(*arrays):
         f = getattr(m, attr)  # late binding: the converter substitutes the module attribute
         if form == "pos":
-            return f(*arrays, val)
-        return f(*arrays, **{pname: val})
+            return f(*arrays, _materialise(val))
+        if form == "kw2":
+            return f(*arrays, **{pname[0]: _materialise(val[0]), pname[1]: _materialise(val[1])})
+        return f(*arrays, **{pname: _materialise(val)})
 
     prog = pipeline.Program(pid=job, fn=fn, specs=[((2, 3), np.dtype(np.float32))] * nreq)
     r = pipeline.analyze(prog, pipeline.Options(timeout_ms=3000 if tier == "quick" else 20000, max_queries=24))
-    r["callform"] = {"target": f"{mod}.{attr}", "param": pname, "value": repr(val), "form": form}
+    r["callform"] = {"target": f"{mod}.{attr}", "param": "+".join(pname) if isinstance(pname, tuple) else pname, "value": repr(val), "form": form}
     if r.get("status") == "export_failed":
         reason = r.get("reason") or ""
         binding_failure = (reason.startswith("TypeError") and any(k in reason for k in ("argument", "positional", "keyword"))) or (reason.startswith("ValueError") and "unpack" in reason)
